@@ -63,25 +63,31 @@ func poisonValue(f reflect.Value, depth int, n int64) {
 			f.Set(reflect.Zero(f.Type()))
 		}
 	case reflect.Slice:
-		// scribble the backing array in place (an alias kept by somebody else now sees junk) ...
+		// Scribble the backing array IN PLACE only where the array is owned by the pooled object itself (error
+		// lists and schemata of a Result, child-validator lists): an alias kept by somebody else now sees junk.
+		// Slices borrowed from the caller's schema (AllOf, Required, Enum, Type, ...) are only replaced.
 		if f.Cap() > 0 {
-			full := f.Slice3(0, f.Cap(), f.Cap())
-			for i := 0; i < full.Len(); i++ {
-				e := full.Index(i)
-				switch {
-				case e.Kind() == reflect.Interface && e.Type().Name() == "error":
-					e.Set(reflect.ValueOf(PoisonErr{n}))
-				case e.Type() == reflect.TypeOf(junkSch):
-					e.Set(reflect.ValueOf(junkSch))
-				case e.Kind() == reflect.String:
-					e.SetString(fmt.Sprintf("\x00POISON%d", n))
-				case e.Kind() == reflect.Ptr || e.Kind() == reflect.Interface:
-					e.Set(reflect.Zero(e.Type()))
-				case e.Kind() == reflect.Struct && depth < 2:
-					for j := 0; j < e.NumField(); j++ {
-						ff := e.Field(j)
-						if ff.CanAddr() {
-							poisonValue(settable(ff), depth+1, n)
+			et := f.Type().Elem()
+			own := (et.Kind() == reflect.Interface && et.Name() == "error") || et == reflect.TypeOf(junkSch) ||
+				(et.Kind() == reflect.Ptr && et.Elem().Name() == "SchemaValidator") ||
+				(et.Kind() == reflect.Struct && (et.Name() == "fieldSchemata" || et.Name() == "itemSchemata"))
+			if own {
+				full := f.Slice3(0, f.Cap(), f.Cap())
+				for i := 0; i < full.Len(); i++ {
+					e := full.Index(i)
+					switch {
+					case et.Kind() == reflect.Interface:
+						e.Set(reflect.ValueOf(PoisonErr{n}))
+					case et == reflect.TypeOf(junkSch):
+						e.Set(reflect.ValueOf(junkSch))
+					case et.Kind() == reflect.Ptr:
+						e.Set(reflect.Zero(et))
+					case et.Kind() == reflect.Struct:
+						for j := 0; j < e.NumField(); j++ {
+							ff := e.Field(j)
+							if ff.CanAddr() && ff.Kind() != reflect.Slice && ff.Kind() != reflect.Map && ff.Kind() != reflect.Struct {
+								poisonValue(settable(ff), depth+1, n)
+							}
 						}
 					}
 				}
@@ -90,6 +96,8 @@ func poisonValue(f reflect.Value, depth int, n int64) {
 		// ... and leave a poisoned non-empty list behind (a reader of the redeemed object sees junk)
 		if f.Type().Elem().Kind() == reflect.Interface && f.Type().Elem().Name() == "error" {
 			f.Set(reflect.ValueOf([]error{PoisonErr{n}}))
+		} else {
+			f.Set(reflect.Zero(f.Type()))
 		}
 	case reflect.Interface:
 		f.Set(reflect.Zero(f.Type()))
@@ -115,6 +123,14 @@ func poisonValue(f reflect.Value, depth int, n int64) {
 // It returns untouched = true when the object still carries the image of a previous poisoning, i.e. it
 // has been redeemed twice without having been (re)built in between.
 func Poison(obj any) (untouched bool) {
+	if sch, ok := obj.(*spec.Schema); ok {
+		// the scratch schema is a shallow copy of a caller-owned schema: it shares slices and maps with it,
+		// so it is only overwritten as a whole, never scribbled in depth
+		if sch != nil {
+			*sch = spec.Schema{SchemaProps: spec.SchemaProps{ID: "\x00POISON", Title: "\x00POISON", Type: spec.StringOrArray{"\x00POISON"}}}
+		}
+		return false
+	}
 	v := reflect.ValueOf(obj)
 	if v.Kind() != reflect.Ptr || v.IsNil() {
 		return false
